@@ -14,7 +14,11 @@
                         delivers for the inputs before ++ [Error(observer(p))], Grammar, the cause in
                         the `Unwrap` chain, nothing escaped, nothing unhandled, downstream closed,
                         source unsubscribed and torn down exactly once; later faults change nothing.
+   * `error_return`     the same for `return …, err` of an error-aware callback (`MapErr`): Error(err)
+                        unwrapped, with the context the callback returned.
    * `fault_not_reached` a plan that is never reached changes nothing.
+   * `grammar_partial`  EVERY plan in which the final observer's next callback does not panic (all
+                        other positions may, teardown included): values, at most one terminal, nothing after.
    * `agree`            for ANY plan over the Next-position callback (any number of panics and error
                         returns) the run is `runOp` of the injected machine: same trace, same drops —
                         so C01's grammar/partition theorems and C04's specifications transfer.
@@ -35,8 +39,8 @@
   Deviations of the pinned tree (each: witness theorem by `decide`, the `_partial` that excludes
   exactly that class, a known finding replayed on the real code):
    (i)   a panic of the FINAL observer's next callback is handed to its error callback but the
-         observer stays open: `N, E, N, C` (`final_onNext_panic_witness`; excluded by: plans with
-         `fN = none`, i.e. `agree`/`next_fault`).
+         observer stays open: `N, E, N, C` (`final_onNext_panic_witness`; `grammar_partial` excludes
+         exactly the plans with a panicking `fN`).
    (ii)  a panic in an Error/Complete-position callback (`ThrowIfEmpty`'s throw, `Catch`'s handler,
          `Tap`'s onError/onComplete) goes to the unhandled hook and the subscriber never gets a
          terminal (`throwIfEmpty_throw_panic_witness`, `catch_handler_panic_witness`,
@@ -60,6 +64,7 @@
 -/
 import RoProofs.Fault.Next
 import RoProofs.Fault.Kernel
+import RoProofs.Fault.Grammar
 import RoProofs.Ops.Basic
 import RoGen.Catalogue
 import RoGen.FaultFacts
@@ -93,6 +98,30 @@ theorem fault_not_reached (fm : FMachine σ α β) (cbN : Nat → Option Fault.F
     (runScript fm (nextPlan cbN) mode sub raw).1.trace = (runOp fm.base mode sub raw).out ∧
     (runScript fm (nextPlan cbN) mode sub raw).1.unhandled = [] :=
   Fault.fault_not_reached fm cbN mode sub raw hs hsub hnone
+
+/-- an error returned by the callback of an error-aware operator (statement in `RoProofs/Fault/Next.lean`) -/
+theorem error_return (fm : FMachine σ α β) (cbN : Nat → Option Fault.Fault) (e : Err)
+    (h : σ → Ctx → α → Err → σ × List (Notif β))
+    (mode : SrcMode) (sub : Ctx) (raw pre post : List (Notif α)) (c c' : Ctx) (v : α)
+    (hs : fm.base.subscribes = true)
+    (hsub : hasTerm (fm.base.onSubscribe fm.base.init sub).2 = false)
+    (hraw : gate raw = pre ++ .next c v :: post)
+    (hh : fm.onErrRet = some h)
+    (hf : cbN (countCalls fm (fm.base.onSubscribe fm.base.init sub).1 pre) = some (.errRet e))
+    (hfirst : ∀ i, i < countCalls fm (fm.base.onSubscribe fm.base.init sub).1 pre → cbN i = none)
+    (hcall : fm.callsN (fm.base.after (fm.base.onSubscribe fm.base.init sub).1 pre) c v = true)
+    (hret : (h (fm.base.after (fm.base.onSubscribe fm.base.init sub).1 pre) c v e).2 = [.error c' e]) :
+    Returned fm (nextPlan cbN) mode sub raw (runOp fm.base mode sub pre).out c' e :=
+  error_return_surfaces fm cbN e h mode sub raw pre post c c' v hs hsub hraw hh hf hfirst hcall hret
+
+/-- `_partial` for deviation (i), at full generality: every machine, EVERY plan in which the final
+    observer's next callback does not panic (all other positions may fail, any number of times,
+    teardown included): the final observer sees values, at most one terminal, nothing after —
+    during the script and after the follow-up notification and the final `Unsubscribe()` -/
+theorem grammar_partial (fm : FMachine σ α β) (P : Plan) (hN : ∀ k, panicAt P.fN k = none) (mode : SrcMode)
+    (sub : Ctx) (raw : List (Notif α)) (fu : Notif α) :
+    Grammar (runScript fm P mode sub raw).1.trace ∧ Grammar (Fault.run fm P mode sub raw fu).fin.trace :=
+  grammar_unless_final_next_panics P hN fm mode sub raw fu
 
 /-- any plan over the Next-position callback: the run is `runOp` of the injected machine -/
 theorem agree (fm : FMachine σ α β) (cbN : Nat → Option Fault.Fault) (mode : SrcMode) (sub : Ctx)
@@ -370,6 +399,8 @@ end Ro.C07
 
 #print axioms Ro.C07.next_fault
 #print axioms Ro.C07.fault_not_reached
+#print axioms Ro.C07.error_return
+#print axioms Ro.C07.grammar_partial
 #print axioms Ro.C07.agree
 #print axioms Ro.C07.grammar_next_plans
 #print axioms Ro.C07.never_escapes
